@@ -199,7 +199,7 @@ def run_case(case, ctx):
         elif op == 'mul':
             st, res = ctx.call(lambda: x * y)
         elif op == 'xor':
-            st, res = ctx.call(x.xor, y, lcols, rcols)
+            st, res = ctx.call(x.xor, y, lcols, rcols) if not case.get('xmode') else ctx.call(x.xor, y, lcols, rcols, case['xmode'])
         elif op == 'div':
             st, res = ctx.call(lambda: x / y)
         else:
@@ -214,7 +214,15 @@ def run_case(case, ctx):
         m = model_join(xc, xr, yc, yr, case['l'] if op == 'join' else None, case['r'] if op == 'join' else None, case['mode'] if op == 'join' else None)
         mon = 'join_rows_model'
     else:
-        m = model_xor(xc, xr, yc, yr, case['l'] if op == 'xor' else None, case['r'] if op == 'xor' else None)
+        if op == 'xor' and case.get('xmode') in ('r', 'right', 1) and _nkeys(case, xc, yc) > 0:
+            # the mirror image: the rows of y whose key matches no row of x
+            l_sp, r_sp = case['l'], case['r']
+            if _keyspec(r_sp) is None and _keyspec(l_sp) is not None:
+                r_sp = l_sp
+            m = model_xor(yc, yr, xc, xr, r_sp, l_sp)
+            ctx.cls('xor:mode_right')
+        else:
+            m = model_xor(xc, xr, yc, yr, case['l'] if op == 'xor' else None, case['r'] if op == 'xor' else None)
         mon = 'xor_rows_model'
     if m[0] == 'error':
         ctx.check('bad_keys_rejected', st == 'exc' and isinstance(res, m[1]), lambda: 'expected %s, got %s %r' % (m[1].__name__, st, res))
@@ -230,8 +238,19 @@ def run_case(case, ctx):
         exp = collections.Counter(rowkey(r) for r in rows)
         ok = got == exp and len(res) == len(rows)
     ctx.check(mon, ok, lambda: '%s: got cols %s rows %s\nmodel cols %s rows %s' % (op, list(res.keys()) if hasattr(res, 'keys') else res, rows_of(res) if hasattr(res, 'keys') else None, cols, rows))
+    if ok and type(res) is dictable:
+        # the result belongs to the caller: a column assigned on it lands on neither operand
+        try:
+            res['__mine__'] = None
+        except Exception:
+            pass
+        ctx.check('operands_unchanged', snap_same(snap(dict(x)), sx) and snap_same(snap(dict(y)), sy), lambda: 'a column assigned on the result of %s appeared on an operand: x columns %s, y columns %s' % (op, list(x.keys()), list(y.keys())))
+        try:
+            del res['__mine__']
+        except Exception:
+            pass
     # conservation: every x row in exactly one of xor and matched part of join (keyed joins only, rows carry a unique id)
-    if ok and op in ('xor', 'div') and 'id' in xc and _nkeys(case, xc, yc) > 0:
+    if ok and op in ('xor', 'div') and 'id' in xc and _nkeys(case, xc, yc) > 0 and case.get('xmode') not in ('r', 'right', 1):
         l_, r_ = (case['l'], case['r']) if op == 'xor' else (None, None)
         jl, jr = _live_cols(l_), _live_cols(r_)
         with StepBudget(codes, budget):
@@ -398,6 +417,9 @@ def gen_case(rng, maxrows):
     if rng.random() < 0.3 and nk:
         case['phase2'] = [keycell(rng, kinds[0]) for _ in range(nl)]
         case['phase2_via'] = rng.choice(['item', 'attr'])
+    if op == 'xor' and rng.random() < 0.3:
+        case['xmode'] = rng.choice(['l', 'r', 'right', 1, 'left', 0])
+        case.pop('phase2', None)
     if rng.random() < 0.08:
         case = rename_columns(case)
     return case
